@@ -164,6 +164,7 @@ type Exec struct {
 	pureDepth     int
 	reassigned    map[types.Object]bool
 	freshPtrVars  map[*types.Var]bool
+	tparams       map[string]types.Type // spec type names bound to type arguments (generic callees)
 }
 
 func newExec(ld *Loader, cs *Contracts, pkg *packages.Package) *Exec {
@@ -210,7 +211,7 @@ func (ex *Exec) wf(v Val) string {
 			implies(app("m-nil", v.T), eq(app("m-size", v.T), "0")))
 	case KInt:
 		if v.GoT != nil {
-			if b, ok := v.GoT.Underlying().(*types.Basic); ok && b.Info()&types.IsUnsigned != 0 {
+			if b, ok := under(v.GoT).(*types.Basic); ok && b.Info()&types.IsUnsigned != 0 {
 				return app(">=", v.T, "0")
 			}
 		}
@@ -255,9 +256,12 @@ func (ex *Exec) sortOf(t types.Type) *Sort {
 	case *types.Alias:
 		return ex.sortOf(types.Unalias(u))
 	case *types.TypeParam:
+		if c := coreOfTypeParam(u); c != nil {
+			return ex.sortOf(c)
+		}
 		return SRef
 	}
-	switch u := t.Underlying().(type) {
+	switch u := under(t).(type) {
 	case *types.Basic:
 		switch {
 		case u.Info()&types.IsBoolean != 0:
@@ -417,7 +421,7 @@ func (ex *Exec) fieldGet(st *State, x Val, name string) Val {
 }
 
 func namedOf(t types.Type) *types.Named {
-	if p, ok := t.Underlying().(*types.Pointer); ok {
+	if p, ok := under(t).(*types.Pointer); ok {
 		t = p.Elem()
 	}
 	if p, ok := t.(*types.Pointer); ok {
@@ -447,11 +451,11 @@ func (ex *Exec) fieldPath(st *State, x Val, index []int) Val {
 	for _, i := range index {
 		t := cur.GoT
 		isPtr := false
-		if p, ok := t.Underlying().(*types.Pointer); ok {
+		if p, ok := under(t).(*types.Pointer); ok {
 			t = p.Elem()
 			isPtr = true
 		}
-		stt, ok := t.Underlying().(*types.Struct)
+		stt, ok := under(t).(*types.Struct)
 		if !ok {
 			elabFail("field access on non-struct %s", t)
 		}
@@ -540,7 +544,7 @@ func (ex *Exec) allocRef(st *State, hint string) Val {
 
 // load reads *p for p pointing to elem type.
 func (ex *Exec) load(st *State, p Val, elem types.Type) Val {
-	if stt, ok := elem.Underlying().(*types.Struct); ok {
+	if stt, ok := under(elem).(*types.Struct); ok {
 		ss := ex.sortOf(elem)
 		var args []string
 		for i := 0; i < stt.NumFields(); i++ {
@@ -556,7 +560,7 @@ func (ex *Exec) load(st *State, p Val, elem types.Type) Val {
 }
 
 func (ex *Exec) store(st *State, p Val, elem types.Type, v Val) {
-	if stt, ok := elem.Underlying().(*types.Struct); ok {
+	if stt, ok := under(elem).(*types.Struct); ok {
 		ss := ex.sortOf(elem)
 		for i := 0; i < stt.NumFields(); i++ {
 			f := stt.Field(i)
@@ -592,4 +596,40 @@ func fieldAcc(f *types.Var, i int) string {
 		return fmt.Sprintf("_blank%d", i)
 	}
 	return sanitize(f.Name())
+}
+
+// coreOfTypeParam: the single underlying type a constraint like ~map[K]V or ~[]E admits, if any.
+func coreOfTypeParam(tp *types.TypeParam) types.Type {
+	iface, ok := tp.Constraint().Underlying().(*types.Interface)
+	if !ok {
+		return nil
+	}
+	var core types.Type
+	for i := 0; i < iface.NumEmbeddeds(); i++ {
+		switch e := iface.EmbeddedType(i).(type) {
+		case *types.Union:
+			if e.Len() != 1 {
+				return nil
+			}
+			t := e.Term(0).Type()
+			switch t.Underlying().(type) {
+			case *types.Map, *types.Slice:
+				core = t
+			default:
+				return nil
+			}
+		}
+	}
+	return core
+}
+
+// under is Underlying(), except that a type parameter constrained to a single map/slice shape
+// (~map[K]V, ~[]E) is seen as that shape.
+func under(t types.Type) types.Type {
+	if tp, ok := types.Unalias(t).(*types.TypeParam); ok {
+		if c := coreOfTypeParam(tp); c != nil {
+			return c.Underlying()
+		}
+	}
+	return t.Underlying()
 }
